@@ -18,13 +18,22 @@ def modelled : List String := [
   "ffg.Element.ToUint64Regular",
   "ffg.NewElement",
   "ffg.NewElementFromUint64",
+  "goldenposeidon.<decls>@constants.go",
+  "goldenposeidon.<decls>@poseidon.go",
   "goldenposeidon.Hash",
   "goldenposeidon.ark",
   "goldenposeidon.exp7",
   "goldenposeidon.exp7state",
   "goldenposeidon.init",
   "goldenposeidon.mix",
-  "goldenposeidon.zero"
+  "goldenposeidon.zero",
+  "ffg.<decls>@arith.go",
+  "ffg.<decls>@asm.go",
+  "ffg.<decls>@asm_noadx.go",
+  "ffg.<decls>@doc.go",
+  "ffg.<decls>@element.go",
+  "ffg.<decls>@element_ops_amd64.go",
+  "ffg.<decls>@element_ops_noasm.go"
 ]
 
 theorem source_pinned : modelled.all (same I3.Gen.fingerprints) = true := by decide +kernel
@@ -32,6 +41,6 @@ theorem source_pinned : modelled.all (same I3.Gen.fingerprints) = true := by dec
 theorem function_set_pinned : (["ffg.", "goldenposeidon."] : List String).all (sameKeys I3.Gen.fingerprints) = true := by
   decide +kernel
 
-theorem modelled_nonempty : 16 = modelled.length := by decide
+theorem modelled_nonempty : 25 = modelled.length := by decide
 
 end I3.Props.C10
